@@ -174,4 +174,94 @@ func litestream.(*Replica).shouldUseV3Restore(r, ctx, client, timestamp) (use, e
   ensures [C19.arbitrate-latest] err == nil && arb_v3U != 0 && arb_ltxU != 0 && timestamp == 0 ==> (use <==> arb_v3U > arb_ltxU)
   ensures [C19.arbitrate-timestamp] err == nil && arb_v3U != 0 && arb_ltxU != 0 && timestamp != 0 ==> (use <==> arb_v3S != nil && (arb_ltxS == nil || arb_v3SCreated > arb_ltxSCreated))
   ensures [C19.arbitrate-err] err != nil ==> !use
+
+// ---------------------------------------------------------------------------
+// C09 WAL reader
+
+pred isLE(bo int) = bo == boxed("binary.littleEndian")
+pred boOK(bo int) = bo == boxed("binary.littleEndian") || bo == boxed("binary.bigEndian")
+
+func litestream.WALChecksum(bo, s0, s1, b) (r0, r1)
+  requires len(b) % 8 == 0 && boOK(bo)
+  bounds [C09.nopanic]
+  ensures [C09.cksum] r0 == ck0(isLE(bo), elems(b), off(b), len(b) / 8, s0, s1) && r1 == ck1(isLE(bo), elems(b), off(b), len(b) / 8, s0, s1)
+  loop 0 invariant 0 <= i && i <= len(b) && i % 8 == 0
+  loop 0 invariant s0 == ck0(isLE(bo), elems(b), off(b), i / 8, old(s0), old(s1)) && s1 == ck1(isLE(bo), elems(b), off(b), i / 8, old(s0), old(s1))
+
+func litestream.(*WALReader).readHeader(r) (err)
+  requires r != nil && r.r != nil
+  modifies r.bo, r.pageSize, r.seq, r.salt1, r.salt2, r.chksum1, r.chksum2, $alloc
+  ensures [C09.hdr-magic] err == nil ==> (fbe32(r.r, 0) == 0x377f0682 && isLE(r.bo)) || (fbe32(r.r, 0) == 0x377f0683 && r.bo == boxed("binary.bigEndian"))
+  ensures [C09.hdr-version] err == nil ==> fbe32(r.r, 4) == 3007000
+  ensures [C09.hdr-cksum] err == nil ==> fbe32(r.r, 24) == ck0(isLE(r.bo), fileArr(r.r), 0, 3, 0, 0) && fbe32(r.r, 28) == ck1(isLE(r.bo), fileArr(r.r), 0, 3, 0, 0)
+  ensures [C09.hdr-fields] err == nil ==> r.pageSize == fbe32(r.r, 8) && r.seq == fbe32(r.r, 12) && r.salt1 == fbe32(r.r, 16) && r.salt2 == fbe32(r.r, 20) && r.chksum1 == fbe32(r.r, 24) && r.chksum2 == fbe32(r.r, 28)
+
+func litestream.(*WALReader).readFrame(r, ctx, data, verifyChecksum) (pgno, commit, err)
+  requires r != nil && r.r != nil && boOK(r.bo) && r.frameN >= 0
+  requires r.pageSize % 8 == 0 && r.pageSize <= 65536
+  requires 32 + r.frameN * (r.pageSize + 24) <= 4611686018427387904
+  let rd = r.r
+  let le = isLE(r.bo)
+  let ps = r.pageSize
+  let foff = 32 + r.frameN * (r.pageSize + 24)
+  modifies r.chksum1, r.chksum2, r.frameN, elems(data), $alloc
+  ensures [C09.frame-salt] err == nil ==> fbe32(rd, foff + 8) == r.salt1 && fbe32(rd, foff + 12) == r.salt2
+  ensures [C09.frame-data] err == nil ==> len(data) == ps && (forall i int :: {data[i]} 0 <= i && i < ps ==> data[i] == fileArr(rd)[foff + 24 + i])
+  ensures [C09.frame-cksum] err == nil && verifyChecksum ==> r.chksum1 == fbe32(rd, foff + 16) && r.chksum2 == fbe32(rd, foff + 20)
+  ensures [C09.frame-hdr] err == nil ==> (forall i int :: {hdr[i]} 0 <= i && i < 24 ==> hdr[i] == fileArr(rd)[foff + i])
+  ensures [C09.frame-chain] err == nil && verifyChecksum ==> r.chksum1 == ck0(le, elems(data), off(data), ps / 8, ck0(le, elems(hdr), 0, 1, old(r.chksum1), old(r.chksum2)), ck1(le, elems(hdr), 0, 1, old(r.chksum1), old(r.chksum2))) && r.chksum2 == ck1(le, elems(data), off(data), ps / 8, ck0(le, elems(hdr), 0, 1, old(r.chksum1), old(r.chksum2)), ck1(le, elems(hdr), 0, 1, old(r.chksum1), old(r.chksum2)))
+  ensures [C09.frame-seed] err == nil && !verifyChecksum ==> r.chksum1 == fbe32(rd, foff + 16) && r.chksum2 == fbe32(rd, foff + 20)
+  ensures [C09.frame-fields] err == nil ==> pgno == fbe32(rd, foff) && commit == fbe32(rd, foff + 4)
+  ensures [C09.frame-next] err == nil ==> 32 + r.frameN * (ps + 24) == foff + ps + 24 && foff + ps + 24 <= 4611686018427387904
+  ensures [C09.frame-advance] (err == nil ==> r.frameN == old(r.frameN) + 1) && (err != nil ==> r.frameN == old(r.frameN))
+
+// pageMap: ghosts record the offset of the last commit frame read and whether the
+// most recent successfully read frame was a commit frame.
+ghost pm_commitOff Int
+ghost pm_lastCommit Bool
+pred pmFS(r *WALReader) = r.pageSize + 24
+pred pmCur(r *WALReader) = 32 + r.frameN * (r.pageSize + 24) - (r.pageSize + 24)
+pred pmMapOK(mm map[uint32]int64, rd int, hi int) = forall p int :: {has(mm, p)} has(mm, p) ==> 32 <= mm[p] && mm[p] <= hi && fbe32(rd, mm[p]) == p
+
+func litestream.(*WALReader).pageMap(r, ctx, maxBytes) (m, maxOffset, commit, limited, err)
+  requires r != nil && r.r != nil && boOK(r.bo) && r.frameN >= 0
+  requires r.pageSize % 8 == 0 && r.pageSize <= 65536
+  requires 32 + r.frameN * (r.pageSize + 24) <= 4611686018427387904
+  requires pm_commitOff == 0 && !pm_lastCommit
+  modifies $heap, $alloc, pm_commitOff, pm_lastCommit
+  at litestream.(*WALReader).ReadFrame#1 set pm_commitOff = ($result2 == nil && $result1 != 0 ? pmCur(r) : pm_commitOff)
+  at litestream.(*WALReader).ReadFrame#1 set pm_lastCommit = ($result2 == nil ? $result1 != 0 : pm_lastCommit)
+  ensures [C09.commit-gate] err == nil ==> pmMapOK(m, r.r, pm_commitOff)
+  ensures [C09.trim] err == nil ==> (forall p int :: {has(m, p)} has(m, p) ==> p <= commit)
+  ensures [C09.max] err == nil && len(m) > 0 ==> (forall p int :: {has(m, p)} has(m, p) ==> m[p] + pmFS(r) <= maxOffset) && (exists p int :: {has(m, p)} has(m, p) && m[p] + pmFS(r) == maxOffset)
+  ensures [C09.empty] err == nil && len(m) == 0 ==> maxOffset == 0 && commit == 0
+  ensures [C09.budget] err == nil && limited ==> pm_lastCommit && maxBytes > 0
+  loop 0 invariant r.r == old(r.r) && r.bo == old(r.bo) && r.pageSize == old(r.pageSize) && r.frameN >= old(r.frameN) && r.frameN >= 0
+  loop 0 invariant 32 + r.frameN * (r.pageSize + 24) <= 4611686018427387904
+  loop 0 invariant m != nil && txMap != nil && m != txMap && fresh(m) && fresh(txMap) && len(data) == r.pageSize && frameSize == r.pageSize + 24 && !limited
+  loop 0 invariant pmMapOK(m, r.r, pm_commitOff) && pmMapOK(txMap, r.r, pmCur(r))
+  loop 0 invariant pm_commitOff == 0 || (32 <= pm_commitOff && pm_commitOff <= pmCur(r))
+  loop 1 invariant m != nil && txMap != nil && m != txMap && fresh(m) && fresh(txMap)
+  loop 1 invariant pmMapOK(m, r.r, pm_commitOff) && pmMapOK(txMap, r.r, pmCur(r)) && pm_commitOff == pmCur(r)
+  loop 2 invariant m != nil && pmMapOK(m, r.r, pm_commitOff)
+  loop 2 invariant forall p int :: {has(m, p)} has(m, p) && visited(0)[p] ==> p <= commit
+  loop 3 invariant m != nil && pmMapOK(m, r.r, pm_commitOff)
+  loop 3 invariant (forall p int :: {has(m, p)} has(m, p) && visited(2)[p] ==> m[p] <= end)
+  loop 3 invariant end == 0 ? (forall p int :: {has(m, p)} has(m, p) ==> !visited(2)[p]) : (exists p int :: {has(m, p)} has(m, p) && m[p] == end)
+
+func litestream.NewWALReader(rd, logger) (r, err)
+  requires rd != nil
+  modifies $alloc
+  ensures [C09.open] err == nil ==> r != nil && fresh(r) && r.r == rd && r.frameN == 0 && boOK(r.bo) && r.pageSize == fbe32(rd, 8) && r.salt1 == fbe32(rd, 16) && r.salt2 == fbe32(rd, 20) && r.chksum1 == fbe32(rd, 24) && r.chksum2 == fbe32(rd, 28)
+  ensures err != nil ==> r == nil
+
+func litestream.NewWALReaderWithOffset(ctx, rd, offset, salt1, salt2, logger) (r, err)
+  requires rd != nil && offset <= 4611686018427387904
+  requires fbe32(rd, 8) % 8 == 0 && fbe32(rd, 8) <= 65536      // A-C09-pagesize
+  modifies $heap, $alloc
+  ensures [C09.resume] err == nil ==> r != nil && r.r == rd && r.salt1 == salt1 && r.salt2 == salt2 && boOK(r.bo) && r.pageSize == fbe32(rd, 8) && r.frameN >= 1
+  ensures [C09.resume-pos] err == nil ==> 32 + r.frameN * (r.pageSize + 24) == offset
+  ensures [C09.resume-prev] err == nil ==> fbe32(rd, offset - (r.pageSize + 24) + 8) == salt1 && fbe32(rd, offset - (r.pageSize + 24) + 12) == salt2
+  ensures [C09.resume-seed] err == nil ==> r.chksum1 == fbe32(rd, offset - (r.pageSize + 24) + 16) && r.chksum2 == fbe32(rd, offset - (r.pageSize + 24) + 20)
+  ensures err != nil ==> r == nil
 */
